@@ -10,6 +10,7 @@
 
 #include "Attribute.hpp"
 #include "H5DataType.hpp"
+#include "H5Exception.hpp"
 
 namespace nix {
 namespace hdf5 {
@@ -42,6 +43,19 @@ void Attribute::read(h5x::DataType mem_type, const NDSize &size, std::string *da
 }
 
 void Attribute::write(h5x::DataType mem_type, const NDSize &size, const void *data) {
+    // H5Awrite copies the new value into the open attribute before it finds out
+    // that the file has no write intent: the call fails, but later reads in the
+    // same session would return the rejected value.
+    hid_t fid = H5Iget_file_id(hid);
+    if (fid >= 0) {
+        unsigned intent = 0;
+        herr_t ires = H5Fget_intent(fid, &intent);
+        H5Fclose(fid);
+        if (ires >= 0 && !(intent & H5F_ACC_RDWR)) {
+            throw H5Exception("Attribute::write(): file is not open for writing");
+        }
+    }
+
     HErr status = H5Awrite(hid, mem_type.h5id(), data);
     status.check("Attribute::write(): Could not write data");
 }
